@@ -42,6 +42,15 @@ FREE_CHOICES = {
     "gm2calc": ["SMINPUTS", "GM2CALCINPUT"],
     "thdm": ["SMINPUTS", "MINPAR", "MASS", "VCKMIN", "GM2CALCINPUT"],
 }
+# matrix-valued blocks (two index tokens per line, read by GM2_slha_io::read_matrix); same abstract semantics:
+# every block of the name at the accepted scale is read in file order, later assignments override earlier ones
+MATRIX_BLOCKS = {"AE", "AU", "AD", "GM2CalcTHDMDeltauInput", "GM2CalcTHDMDeltadInput", "GM2CalcTHDMDeltalInput",
+                 "GM2CalcTHDMPiuInput", "GM2CalcTHDMPidInput", "GM2CalcTHDMPilInput"}
+MATRIX_KEYS = ["%d %d" % (i, k) for i in (1, 2, 3) for k in (1, 2, 3)]
+MATRIX_UNKNOWN_KEY = "4 2"      # outside the 3x3 matrix: ignored
+FREE_CHOICES["thdm"] = FREE_CHOICES["thdm"] + ["GM2CalcTHDMDeltauInput", "GM2CalcTHDMPilInput", "GM2CalcTHDMDeltadInput",
+                                               "GM2CalcTHDMPiuInput", "GM2CalcTHDMDeltalInput", "GM2CalcTHDMPidInput"]
+DEP_CHOICES = {"slha": ["MSOFT", "AE", "AU", "MSOFT", "AD"], "gm2calc": ["MSOFT"], "thdm": ["MSOFT"]}
 ABS_FMT = {"slha": "slha", "gm2calc": "flat", "thdm": "flat"}
 FOREIGN = ["FOOBAR", "MODSEL", "EXTPAR", "ALPHA", "GAUGE", "YU", "SPINFO2"]
 UNKNOWN_KEY = 77          # a key no table documents
@@ -131,11 +140,12 @@ class Target:
         self.cfmt = cfmt
         self.fmt = ABS_FMT[cfmt]
         self.free = FREE_CHOICES[cfmt][counter % len(FREE_CHOICES[cfmt])]
-        self.block = {"FREE": self.free, "HMIX": "HMIX", "DEP": "MSOFT", "X": rnd.choice(FOREIGN)}
+        dep = DEP_CHOICES[cfmt][(counter // len(FREE_CHOICES[cfmt])) % len(DEP_CHOICES[cfmt])]
+        self.block = {"FREE": self.free, "HMIX": "HMIX", "DEP": dep, "X": rnd.choice(FOREIGN)}
         self.keys = {}
         self.vals = {}
         for ab in ("FREE", "HMIX", "DEP"):
-            doc = DOC[cfmt].get(self.block[ab], [1, 2])
+            doc = MATRIX_KEYS if self.block[ab] in MATRIX_BLOCKS else DOC[cfmt].get(self.block[ab], [1, 2])
             i = (counter // len(FREE_CHOICES[cfmt])) % len(doc)
             k1 = doc[i]
             k2 = doc[(i + 1 + rnd.randrange(max(1, len(doc) - 1))) % len(doc)]
@@ -143,7 +153,7 @@ class Target:
                 k2 = doc[(i + 1) % len(doc)]
             if k2 == k1:        # single documented key: k2 becomes a key this format does not read
                 k2 = 1 if k1 != 1 else 2
-            self.keys[ab] = {"k1": k1, "k2": k2, "kx": UNKNOWN_KEY}
+            self.keys[ab] = {"k1": k1, "k2": k2, "kx": MATRIX_UNKNOWN_KEY if self.block[ab] in MATRIX_BLOCKS else UNKNOWN_KEY}
             for k in ("k1", "k2"):
                 kind = value_kind(cfmt, self.block[ab], self.keys[ab][k])
                 _, ma, ea = dec_value(rnd, kind)
@@ -220,9 +230,13 @@ def render(tg, lines, rnd, canonical=False):
         elif ln["t"] == "dat":
             ab = cur if cur is not None else "X"
             if ln["key"] == "kbad":
-                cls = rnd.choice(sorted(BAD_KEY))
+                is_mat = cur is not None and tg.block.get(cur) in MATRIX_BLOCKS
+                # matrix indices are read as 64-bit Eigen::Index: 99999999999 is a valid index outside the matrix there
+                cls = rnd.choice(sorted(c for c in BAD_KEY if not (is_mat and c == "overflow")))
                 used.add("K:" + cls)
                 ktxt = rnd.choice(BAD_KEY[cls])
+                if is_mat:
+                    ktxt = rnd.choice([ktxt + " 2", "2 " + ktxt])
             elif ab == "X" or cur is None:
                 ktxt = str({"k1": 1, "k2": 2, "kx": UNKNOWN_KEY}[ln["key"]])
             else:
